@@ -174,7 +174,11 @@ class VExecutor(cf.ThreadPoolExecutor):
         self._shutdown_thread = False   # attribute read by the process-pool registry
         self.loop = None
         self.on_submit = None
+        self.on_start = None     # a queued job is picked up by a worker (bounded pool only)
         self.submitted = 0
+        self.cap = None          # max jobs in flight; None = every job is picked up at once
+        self.running = 0
+        self.queue = []
 
     def submit(self, fn, /, *args, **kwargs):
         if self._shutdown:
@@ -184,9 +188,23 @@ class VExecutor(cf.ThreadPoolExecutor):
             raise RuntimeError('VExecutor used outside of a virtual run')
         self.submitted += 1
         fut = cf.Future()
-        fut.set_running_or_notify_cancel()   # modelled as already picked up by a worker
         ctx = contextvars.copy_context()
         meta = self.on_submit(self.vname, fn) if self.on_submit else None
+        job = (fut, fn, args, kwargs, ctx, meta)
+        if self.cap is not None and self.running >= self.cap:
+            # bounded pool: the job waits in the queue, NOT yet picked up by a worker; a cancelled future is dropped
+            self.queue.append(job)
+        else:
+            self._start(job, queued=False)
+        return fut
+
+    def _start(self, job, queued):
+        fut, fn, args, kwargs, ctx, meta = job
+        if not fut.set_running_or_notify_cancel():
+            return False        # cancelled while it was waiting in the queue
+        self.running += 1
+        if queued and self.on_start:
+            self.on_start(self.vname, meta)
 
         def _release():
             try:
@@ -195,10 +213,21 @@ class VExecutor(cf.ThreadPoolExecutor):
                 fut.set_exception(e)
             else:
                 fut.set_result(res)
+            self.running -= 1
+            self._pump()
 
         base = ('exec', self.vname) + tuple(meta or ())
-        loop.add_gate(base, 'exec', _release, meta)
-        return fut
+        self.loop.add_gate(base, 'exec', _release, meta)
+        return True
+
+    def _pump(self):
+        while self.queue and (self.cap is None or self.running < self.cap):
+            self._start(self.queue.pop(0), queued=True)
+
+    def reset(self, cap=None):
+        self.cap = cap
+        self.running = 0
+        self.queue = []
 
     def shutdown(self, wait=True, *, cancel_futures=False):
         pass
